@@ -16,4 +16,5 @@ for ID in "$@"; do
   grep -A3 '^VIOLATION\|ENGINE-ERROR' $OUT/$ID.log | cut -c1-300 | head -${MUT_LINES:-12}
 done
 git -C /repo worktree remove --force $WT
-rm -rf $OUT /verif/.work/alt-* /verif/.work/bin/check-*-[0-9]*
+K=$(echo "$WT" | cksum | cut -d" " -f1)
+rm -rf $OUT /verif/.work/alt-$K /verif/.work/seam-$K* /verif/.work/bin/check-*-$K
